@@ -119,6 +119,7 @@ class C07(Check):
         ctx.phase(self.corr_incenc, ctx, c, rng)
         ctx.phase(c07_inner.corr_inner, self, ctx, c, rng)
         ctx.phase(c07_inner.corr_css_concrete, self, ctx, c, rng)
+        ctx.phase(c07_inner.corr_css_stream, self, ctx, c, rng)
         ctx.phase(self.oracle_spec, ctx, c, rng)
         ctx.phase(self.oracle_roundtrip_chunking, ctx, c, rng)
 
@@ -391,7 +392,10 @@ class C07(Check):
         for cuts in self.partitions(rng, len(data), ctx):
             parts = [data[a:b] for a, b in zip((0,) + cuts, cuts + (len(data),))]
             dec_ = codecs.getincrementaldecoder('css')(encoding=e)
-            got = ''.join(dec_.decode(p, False) for p in parts) + dec_.decode(b'', True)
+            try:
+                got = ''.join(dec_.decode(p, False) for p in parts) + dec_.decode(b'', True)
+            except UnicodeError as ex:
+                got = 'raises %r' % ex
             ctx.case(key=('chd', text, e, cuts), nontrivial=any(x < 24 for x in cuts), kind='chunk-dec')
             if got != back:
                 ctx.violate('incremental decoder = one-shot for every chunking',
@@ -399,7 +403,10 @@ class C07(Check):
                 break
             if auto:
                 dec_ = codecs.getincrementaldecoder('css')()
-                got = ''.join(dec_.decode(p, False) for p in parts) + dec_.decode(b'', True)
+                try:
+                    got = ''.join(dec_.decode(p, False) for p in parts) + dec_.decode(b'', True)
+                except UnicodeError as ex:
+                    got = 'raises %r' % ex
                 one = codecs.getdecoder('css')(data)[0]
                 if got != one:
                     ctx.violate('incremental decoder with auto-detection = one-shot for every chunking',
@@ -407,7 +414,10 @@ class C07(Check):
                     break
             # stream reader fed through a chunked stream
             rd = codecs.getreader('css')(ChunkedStream(parts), encoding=e)
-            got = rd.read()
+            try:
+                got = rd.read()
+            except UnicodeError as ex:
+                got = 'raises %r' % ex
             if got != back and not open_header(text):
                 ctx.violate('stream reader = one-shot for every chunking',
                             dict(w, cuts=list(cuts), call='StreamReader'), {'got': got, 'want': back})
@@ -472,7 +482,8 @@ class C07(Check):
             early = c.detectencoding_str(p, False)
             if early[0] is not None and early != c.detectencoding_str(full, True):
                 ctx.violate(data.get('clause'), w, {'early': early})
-        elif w.get('call') in ('IncrementalDecoder', 'IncrementalEncoder') and 'chunks' in w and 'cuts' not in w:
+        elif w.get('call') in ('IncrementalDecoder', 'IncrementalEncoder', 'StreamReader', 'StreamWriter') \
+                and 'chunks' in w and 'cuts' not in w:
             self.replay_chunks(ctx, c, data, w)
         elif data.get('kind') == 'impl-violates' and 'text' in w:
             self.one_roundtrip(ctx, c, ctx.sub_rng('replay'), w['text'], w['encoding'])
@@ -491,6 +502,36 @@ def _replay_chunks(self, ctx, c, data, w):
         d = c.IncrementalDecoder(**kw)
         try:
             got = ''.join(d.decode(p, False) for p in parts) + d.decode(b'', True)
+        except UnicodeError:
+            got = None
+    elif w['call'] == 'StreamReader':
+        parts = [bytes.fromhex(x) for x in w['chunks']]
+        kw = {'encoding': w.get('encoding'), 'force': w.get('force', True)}
+        try:
+            one = codecs.getdecoder('css')(b''.join(parts), **kw)[0]
+        except UnicodeError:
+            one = None
+        rd = codecs.getreader('css')(ChunkedStream(parts), **kw)
+        try:
+            got = rd.read()
+        except UnicodeError:
+            got = None
+        if got is not None and one is not None and one.startswith(got) and (rd.streamreader is None or rd.bytebuffer):
+            got = one        # legitimately still buffered (no end-of-data signal in the stream API)
+    elif w['call'] == 'StreamWriter':
+        parts = w['chunks']
+        try:
+            one = codecs.getencoder('css')(''.join(parts), encoding=w.get('encoding'))[0]
+        except UnicodeError:
+            one = None
+        bio = io.BytesIO()
+        try:
+            wr = codecs.getwriter('css')(bio, encoding=w.get('encoding'))
+            for p in parts:
+                wr.write(p)
+            got = bio.getvalue()
+            if one is not None and one.startswith(got) and (wr.streamwriter is None or not ''.join(parts)):
+                got = one
         except UnicodeError:
             got = None
     else:
